@@ -247,6 +247,36 @@ pub fn tx<'a>(
 	build::transaction_with_kernel(elems, kernel, excess, kc, builder).map_err(|e| format!("{:?}", e))
 }
 
+/// Like `tx`, but the kernel excess key is chosen so that the transaction's offset is exactly `want_offset`
+/// (the split of the blinding sum into kernel excess and offset is the sender's choice).
+pub fn tx_with_offset<'a>(
+	kc: &ExtKeychain,
+	features: KernelFeatures,
+	elems: &[Box<Append<ExtKeychain, ProofBuilder<'a, ExtKeychain>>>],
+	builder: &ProofBuilder<'a, ExtKeychain>,
+	id: u64,
+	want_offset: &BlindingFactor,
+) -> Result<Transaction, String> {
+	// blinding sum of the elements = offset + excess of any build
+	let probe = tx(kc, features, elems, builder, id)?;
+	let secp = kc.secp();
+	let e1 = secret_from("excess", id);
+	let o1 = probe.offset.secret_key(secp).map_err(|e| format!("{:?}", e))?;
+	let w = want_offset.secret_key(secp).map_err(|e| format!("{:?}", e))?;
+	let skey = secp.blind_sum(vec![o1, e1], vec![w]).map_err(|e| format!("{:?}", e))?;
+	let mut kernel = TxKernel::with_features(features);
+	let msg = kernel.msg_to_sign().map_err(|e| format!("{:?}", e))?;
+	let nonce = secret_from("nonce", id);
+	kernel.excess = secp.commit(0, skey.clone()).map_err(|e| format!("{:?}", e))?;
+	let pubkey = kernel.excess.to_pubkey(secp).map_err(|e| format!("{:?}", e))?;
+	kernel.excess_sig = aggsig::sign_single(secp, &msg, &skey, Some(&nonce), Some(&pubkey)).map_err(|e| format!("{:?}", e))?;
+	let t = build::transaction_with_kernel(elems, kernel, BlindingFactor::from_secret_key(skey), kc, builder).map_err(|e| format!("{:?}", e))?;
+	if t.offset != *want_offset {
+		return Err("offset of the built transaction is not the wanted one".into());
+	}
+	Ok(t)
+}
+
 /// spend the coinbase with key `from` entirely into plain outputs `to` (amounts), fee = rest
 pub fn spend_coinbase(kc: &ExtKeychain, from: u32, in_value: u64, to: &[(u32, u64)], id: u64) -> Transaction {
 	let pb = ProofBuilder::new(kc);
